@@ -84,8 +84,29 @@ def _systematic(tier, seed):
     return out
 
 
+def _unary_runs():
+    """long runs of prefix operators in front of one operand while 1..5 binary operators of different levels wait
+    (every stacked prefix operator has to be unwound, however many there are)"""
+    L = lambda v: ["lit", v, "d"]
+    cases = []
+
+    def negs(n, t):
+        for _ in range(n):
+            t = ["neg", t]
+        return t
+
+    for n in (1, 2, 3, 5, 7, 8, 9, 10, 12, 16, 24):
+        run = negs(n, L(3))
+        cases.append(["bin", "+", ["bin", "*", L(2), run], L(1)])
+        cases.append(["bin", "-", ["bin", "-", L(100), ["bin", "*", L(2), negs(n, L(1))]], L(30)])
+        cases.append(["bin", "<<", ["bin", "<<", L(1), ["bin", "+", L(2), ["bin", "*", L(3), negs(n, L(1))]]], L(1)])
+        cases.append(["bin", "&", ["bin", ">>", ["bin", "+", L(0x4000), ["bin", "*", L(16), negs(n, L(2))]], L(2)], L(0xFFFF)])
+        cases.append(["bin", "+", negs(n, ["inv", L(5)]), L(1)])
+    return [{"tree": t, "gaps": None, "env": {}, "org": 0x018123} for t in cases]
+
+
 def enum_units(tier, seed):
-    cases = _systematic(tier, seed)
+    cases = _systematic(tier, seed) + _unary_runs()
     units = [{"cases": cases[i::32]} for i in range(32)]
     return {"units": units, "exhaustive": tier == "thorough"}
 
